@@ -193,6 +193,30 @@ CHECKS["C19"] = {
     ],
 }
 
+CHECKS["C08"] = {
+    "pkg": "./checks/c08",
+    "level": "exploration",
+    "rule": "Generated workload: 1..3 deputies, 3..6 blocks with generated transfers, contract creations and calls, candidate registrations, votes, asset creation / issue / transfer and boxes, sometimes a fork block; confirm packets at generated moments "
+            "(with one deputy every block is stable at once). A CHILD PROCESS executes it on a fresh data directory, opened exactly as main/node does; a crash-point hook (store/crashpoint, build tag verif) around every file write of the store "
+            "(tmp.data and bitcask data files: before / inside / after the write and after fsync; context.data: head, body, before fsync, before rename; the LevelDB position index and stable pointer: before / after Put) kills it with SIGKILL at the k-th "
+            "hit, k drawn from 1..N (N = hits of an undisturbed child), in mode clean or torn (only the first 1 / half / all-but-one bytes of that write reach the file). 3..6 crash points per workload (12 in the thorough tier). "
+            "In a quarter of the cases the recovering process is killed the same way at its k2-th write (1..40). A last child reopens the directory and reports; then it receives the whole workload again. "
+            "Oracles: reopening exits 0 (no panic, no manual repair); stable height >= the height the crashed child had journaled (fsynced, outside the data directory) after its last completed step; the stable block is the canonical block of its height; "
+            "every block 0..stable is served by height and by hash and equals the golden chain; the account data of every address of the workload (balances, versions, storage and asset roots, candidate profile, votes, code readable) as of exactly that block, "
+            "and the candidate list, equal those of a reference node on which that block is the latest stable one; after the workload was delivered again, current and stable block equal those of the undisturbed child. "
+            "non-trivial = at least one crash actually happened and the workload had a promotion; distinct by ops + crash points.",
+    "level_text": "Fault injection at generated crash points (incl. torn writes and crashes during recovery) in child processes, with a golden-run differential oracle. Crash points are sampled, not enumerated: "
+                  "the background writer makes the k-th write schedule dependent, so the reproducible unit of a failure is the crashed directory image (kept as the replay artefact), not k.",
+    "level_note": "The fault model is process death (SIGKILL): what was written survives, fsync is irrelevant; power loss (un-fsynced data vanishing) is not modelled. Crashes inside goleveldb's own files cannot be hooked. "
+                  "After each step the children wait until the store's write queue is empty before the next step: the asset indexes of a block are written asynchronously and a block using them must not overtake them "
+                  "(a timing dependence of the product that exists without any crash and is outside this property).",
+    "technique": "rapid-generated workloads + crash-point fault injection in child processes + golden-run differential oracle",
+    "assumptions": ["the node is restarted the way main/node does it (genesis is written when no block of height 0 exists)", "unconfirmed blocks are kept in memory only and are lost by design; the workload is delivered again after the restart"],
+    "units": [
+        {"name": "crash", "test": "TestC08Crash", "quick": {"checks": 40, "shards": 8, "timeout": 900}, "thorough": {"checks": 150, "shards": 16, "timeout": 3400}},
+    ],
+}
+
 CHECKS["C07"] = {
     "pkg": "./checks/c07",
     "level": "exploration",
